@@ -335,6 +335,28 @@ def run_case(case: Dict[str, Any]) -> Dict[str, Any]:
     for n in graph.nodes:
         if n.op in ("call_function", "call_method") and n.target not in targets:
             targets.append(n.target)
+    # ---- call histories on ONE graph object: the copying helpers are pure functions of the graph's current content
+    for hname, fn_, extra in (("non_float", prune_non_float_tensors, ()), ("same_scale", prune_same_scale_tensors, (2.0**-8,))):
+        ident = f"{hname}|repeated_calls|{base}"
+        gobj = copy.deepcopy(graph)
+        r1 = call(ident, fn_, gobj, *extra)
+        if r1 is None:
+            continue
+        sig1 = _snapshot(r1)
+        tg1 = [n.target for n in r1.nodes if n.op in ("call_function", "call_method")]
+        if tg1:
+            call(ident, prune_selected_nodes, r1, [tg1[0]])  # the caller trims the RESULT in place
+        r2 = call(ident, fn_, gobj, *extra)
+        steps += 2
+        if r2 is not None and (r2 is r1 or _snapshot(r2) != sig1):
+            viol.append({"key": ident + "|second_call_differs_from_first", "msg": "same (unchanged) input graph object pruned twice\n" + src})
+        if targets:
+            call(ident, prune_selected_nodes, gobj, [targets[-1]])  # ... and trims the INPUT graph in place
+            r3 = call(ident, fn_, gobj, *extra)
+            r4 = call(ident, fn_, copy.deepcopy(gobj), *extra)
+            steps += 2
+            if r3 is not None and r4 is not None and _snapshot(r3) != _snapshot(r4):
+                viol.append({"key": ident + "|result_ignores_in_place_edit_of_the_input", "msg": src})
     subsets: List[Tuple[Any, ...]] = [()]
     for k in (1, 2):
         subsets += list(itertools.combinations(targets, k))
